@@ -22,7 +22,9 @@ func Values(t tensor.Tensor) []float64 {
 	for k := 0; k < n; k++ {
 		v, err := t.At(idx...)
 		if err != nil {
-			panic(fmt.Sprintf("harness: At%v on shape %v failed: %v", idx, shape, err))
+			// Shape() and At() of one tensor disagree: the library's own state is
+			// inconsistent (e.g. its dims were overwritten); reported as a violation
+			panic(fmt.Sprintf("tensor inconsistent: Shape() is %v but At%v fails: %v", shape, idx, err))
 		}
 		out = append(out, v)
 		for i := len(idx) - 1; i >= 0; i-- {
